@@ -554,6 +554,7 @@ func c04ConvertCase(ctx *Ctx, v cty.Value, ty cty.Type) {
 	u1, _ := v.Unmark()
 	p1, _ := try(func() { r1, e1 = convert.Convert(u1, ty) })
 	ctx.Add("mk.convwrap", outM, w, c04Out(c04ConvOut(r1, e1, p1)))
+	c04d04ConvTie(ctx, v, clean, ty, outM, outC)
 	kind := func(s string) string { return strings.SplitN(s, " ", 2)[0] }
 	if kind(outM) != kind(outC) {
 		fail("convert-non-interference", "convert:outcome:"+kind(outM)+"-vs-"+kind(outC), "conversion of the marked and of the unmarked value end differently", "marked: "+outM+" ; unmarked: "+outC)
